@@ -1066,3 +1066,72 @@ func init() {
 		}
 	})
 }
+
+// ------------------------------------------------------------------ C17.R14
+// F34, F35: evidence travels inside gossiped evidence lists and inside proposed blocks; it is decoded and
+// validated in the consensus receive routine, which nothing recovers. Decoding/validation of what a peer
+// sent must therefore fail with an error, never panic:
+// (a) LightClientAttackEvidence.ValidateBasic reads fields promoted from the embedded *SignedHeader only
+//     after testing that pointer;
+// (b) ValidatorSetFromProto calls the panicking TotalVotingPower() only after having established, with an
+//     error return, that the members' total is within MaxTotalVotingPower.
+func init() {
+	register("C17", "R14", "K1", "decoding peer-supplied evidence fails with an error, never a panic (nil signed header, oversized validator set)", 3, func(c *Ctx) {
+		w := c.W
+		if f := c.fn("types", "LightClientAttackEvidence.ValidateBasic"); f != nil {
+			fk := funcKey(f)
+			n := 0
+			for _, b := range f.Blocks {
+				for _, in := range b.Instrs {
+					fa, ok := in.(*ssa.FieldAddr)
+					if !ok {
+						continue
+					}
+					// a field of *SignedHeader reached through ConflictingBlock.SignedHeader
+					ld, ok := fa.X.(*ssa.UnOp)
+					if !ok || ld.Op != token.MUL {
+						continue
+					}
+					if !strings.HasSuffix(w.expr(ld), ".ConflictingBlock.SignedHeader") {
+						continue
+					}
+					n++
+					c.guards(f, fa, fmt.Sprintf("%s :: read %s of the conflicting block's signed header", fk, fieldName(fa.X.Type(), fa.Field)), 0, guardRe("the signed header is there", `^nonnil\(\w+\.ConflictingBlock\.SignedHeader\)$`))
+				}
+			}
+			c.Check(n >= 1, fk+" :: accesses through the embedded signed header found", w.pos(f.Pos()), ">= 1", fmt.Sprintf("%d", n))
+		}
+		if f := c.fn("types", "ValidatorSetFromProto"); f != nil {
+			fk := funcKey(f)
+			max := c.mustConst("types", "MaxTotalVotingPower")
+			var bound *ssa.BasicBlock
+			for _, ea := range condEdges(f) {
+				if ea.A.Kind != "cmp" {
+					continue
+				}
+				k, isC := constInt(ea.A.Y)
+				if !isC || k != max || !(ea.A.Op == token.GTR) {
+					continue
+				}
+				if call := valueCall(ea.A.X); call == nil || !w.isCall(call, "types#safeAddClip") {
+					continue
+				}
+				if edgeOnlyFails(w, f, ea.E.From.Succs[ea.E.Succ]) {
+					bound = ea.E.From
+				}
+			}
+			for _, call := range w.callsTo(f, "types#ValidatorSet.TotalVotingPower") {
+				ok := bound != nil && bound.Dominates(call.Block())
+				if bound != nil && !ok {
+					// the bounding loop's header dominates the call
+					for d := bound; d != nil; d = d.Idom() {
+						if isLoopHead(d) && d.Dominates(call.Block()) {
+							ok = true
+						}
+					}
+				}
+				c.Check(ok, fk+" :: the panicking total is computed only after the sum was bounded with an error return", w.ipos(call), "sum > MaxTotalVotingPower → error, before TotalVotingPower()", "TotalVotingPower() (which panics above the maximum) is called on members taken from the wire without the sum having been checked")
+			}
+		}
+	})
+}
